@@ -1,6 +1,13 @@
 package sarama
 
-import "bytes"
+import (
+	"bytes"
+	"sort"
+)
+
+// This file is injected into package sarama by the simulation build overlay (it is not part of
+// /repo). It exposes sarama's server-side codecs (request decoders / response encoders, used in
+// production only by MockBroker) and a few accessors to unexported request fields.
 
 // VerifDecodeRequest decodes one length-prefixed request frame.
 func VerifDecodeRequest(frame []byte) (corr int32, clientID string, body interface{}, err error) {
@@ -11,72 +18,73 @@ func VerifDecodeRequest(frame []byte) (corr int32, clientID string, body interfa
 	return req.correlationID, req.clientID, req.body, nil
 }
 
-type verifEncoder interface{ encode(pe packetEncoder) error }
-
-// VerifEncodeResponse encodes header (v0) + body.
+// VerifEncodeResponse encodes header + body like MockBroker does.
 func VerifEncodeResponse(corr int32, body interface{}) ([]byte, error) {
-	b, err := encode(body.(encoder), nil)
+	pb := body.(protocolBody)
+	b, err := encode(pb, nil)
 	if err != nil {
 		return nil, err
 	}
-	hdr := make([]byte, 8)
-	n := uint32(len(b) + 4)
+	hv := pb.headerVersion()
+	hl := 8
+	if hv >= 1 {
+		hl = 9
+	}
+	hdr := make([]byte, hl)
+	n := uint32(len(b) + hl - 4)
 	hdr[0], hdr[1], hdr[2], hdr[3] = byte(n>>24), byte(n>>16), byte(n>>8), byte(n)
-	hdr[4], hdr[5], hdr[6], hdr[7] = byte(uint32(corr)>>24), byte(uint32(corr)>>16), byte(uint32(corr)>>8), byte(uint32(corr))
+	c := uint32(corr)
+	hdr[4], hdr[5], hdr[6], hdr[7] = byte(c>>24), byte(c>>16), byte(c>>8), byte(c)
 	return append(hdr, b...), nil
 }
 
-// VerifRecords returns "key=value" strings of the records a produce request carries for a partition.
-func VerifRecords(r *ProduceRequest, topic string, partition int32) []string {
-	recs, ok := r.records[topic][partition]
-	if !ok {
-		return nil
-	}
-	var out []string
-	if recs.RecordBatch != nil {
-		for _, rec := range recs.RecordBatch.Records {
-			out = append(out, string(rec.Key)+"="+string(rec.Value))
+type VerifTP struct {
+	Topic     string
+	Partition int32
+	Offset    int64
+	Metadata  string
+	Timestamp int64
+	Time      int64
+}
+
+func VerifOffsetRequestBlocks(r *OffsetRequest) []VerifTP {
+	var out []VerifTP
+	for t, ps := range r.blocks {
+		for p, b := range ps {
+			out = append(out, VerifTP{Topic: t, Partition: p, Time: b.time})
 		}
 	}
-	if recs.MsgSet != nil {
-		for _, mb := range recs.MsgSet.Messages {
-			out = append(out, string(mb.Msg.Key)+"="+string(mb.Msg.Value))
-		}
-	}
+	sortTP(out)
 	return out
 }
 
-// VerifBatchInfo exposes idempotence fields of the record batch a produce request carries for a partition.
-func VerifBatchInfo(r *ProduceRequest, topic string, partition int32) (pid int64, epoch int16, firstSeq int32, n int, ok bool) {
-	recs, found := r.records[topic][partition]
-	if !found || recs.RecordBatch == nil {
-		return 0, 0, 0, 0, false
-	}
-	b := recs.RecordBatch
-	return b.ProducerID, b.ProducerEpoch, b.FirstSequence, len(b.Records), true
-}
-
-func VerifOffsetRequestTime(r *OffsetRequest, topic string, partition int32) int64 {
-	return r.blocks[topic][partition].time
-}
-
-func VerifFetchOffset(r *FetchRequest, topic string, partition int32) (int64, int32) {
-	b := r.blocks[topic][partition]
-	return b.fetchOffset, b.maxBytes
-}
-
-func VerifSetHWM(fr *FetchResponse, topic string, partition int32, hwm int64) {
-	fr.Blocks[topic][partition].HighWaterMarkOffset = hwm
-}
-
-func VerifFixFirstOffset(fr *FetchResponse, topic string, partition int32, first int64) {
-	b := fr.Blocks[topic][partition]
-	for _, rs := range b.RecordsSet {
-		if rs.RecordBatch != nil {
-			rs.RecordBatch.FirstOffset = first
-			for i, rec := range rs.RecordBatch.Records {
-				rec.OffsetDelta = int64(i)
-			}
+func VerifOffsetCommitBlocks(r *OffsetCommitRequest) []VerifTP {
+	var out []VerifTP
+	for t, ps := range r.blocks {
+		for p, b := range ps {
+			out = append(out, VerifTP{Topic: t, Partition: p, Offset: b.offset, Metadata: b.metadata, Timestamp: b.timestamp})
 		}
 	}
+	sortTP(out)
+	return out
+}
+
+func VerifOffsetFetchPartitions(r *OffsetFetchRequest) []VerifTP {
+	var out []VerifTP
+	for t, ps := range r.partitions {
+		for _, p := range ps {
+			out = append(out, VerifTP{Topic: t, Partition: p})
+		}
+	}
+	sortTP(out)
+	return out
+}
+
+func sortTP(x []VerifTP) {
+	sort.Slice(x, func(i, j int) bool {
+		if x[i].Topic != x[j].Topic {
+			return x[i].Topic < x[j].Topic
+		}
+		return x[i].Partition < x[j].Partition
+	})
 }
